@@ -29,6 +29,52 @@ def _fields(h: SpacePacketHeader):
             "packet_len": int(h.packet_len)}
 
 
+# ---- the application modifies a header it decoded (a received TC header turned into the header of the TM reply), then
+#      decodes again: case key "mut" = which public setters it uses (bit mask, see _mutate); implementation side only ----
+_MUT_ALL = 127
+
+
+def _mutate(mask: int):
+    def mutate(h: SpacePacketHeader):
+        old = {n: getattr(h, n) for n in ("apid", "packet_type", "sec_header_flag", "seq_count", "seq_flags")}
+        old_len = h.data_len
+        ts = core.tolerant_set
+        if mask & 1:
+            ts(h, "apid", int(old["apid"]) ^ 0x2A5)
+        if mask & 2:
+            ts(h, "packet_type", PacketType(1 - int(old["packet_type"])))
+        if mask & 4:
+            ts(h, "sec_header_flag", not bool(old["sec_header_flag"]))
+        if mask & 8:
+            ts(h, "seq_count", int(old["seq_count"]) ^ 0x1555)
+        if mask & 16:
+            ts(h, "seq_flags", SequenceFlags((int(old["seq_flags"]) + 1) % 4))
+        if mask & 32:
+            ts(h, "data_len", int(old_len) ^ 0x5A5A)
+        if mask & 64:
+            # the composite views are public too
+            ts(h.packet_id, "apid", (int(h.apid) + 1) % 2048)
+            ts(h.packet_seq_control, "seq_count", (int(h.seq_count) + 1) % 16384)
+
+        def undo():
+            if mask & 64:
+                ts(h.packet_id, "apid", old["apid"])
+                ts(h.packet_seq_control, "seq_count", old["seq_count"])
+            for n, v in old.items():
+                ts(h, n, v)
+            ts(h, "data_len", old_len)
+        return undo
+    return mutate
+
+
+def _redecode_probe(raw: bytes, mask: int):
+    """decode, modify the decoded header through its setters, decode again: the same octets, octets with the same first
+    word but every other bit different, and octets with the same second / third word but another first word"""
+    inv = lambda b: bytes(x ^ 0xFF for x in b)  # noqa: E731
+    others = [raw[:2] + inv(raw[2:6]) + raw[6:], inv(raw[:2]) + raw[2:], raw[:4] + inv(raw[4:6])]
+    core.redecode_after_mutation(SpacePacketHeader.unpack, raw, _fields, _mutate(mask), "SpacePacketHeader.unpack", others)
+
+
 def op_sph_new(a):
     h = _hdr(a)
     f = _fields(h)
@@ -50,11 +96,17 @@ def op_sph_pack(a):
     h2 = SpacePacketHeader.unpack(raw)
     if not (h2 == h) or core.ISOLATION.check("SpacePacketHeader", h2, _fields) != _fields(h):
         raise SelfCheckFailure("unpack(pack(h)) is not equal to h")
+    if a.get("mut"):
+        _redecode_probe(raw, a["mut"])
+        if _fields(SpacePacketHeader.unpack(raw)) != _fields(h):
+            raise SelfCheckFailure("unpack(pack(h)) no longer shows the fields of h after a header decoded earlier was modified")
     return {"raw": hx(raw)}
 
 
 def op_sph_unpack(a):
     raw = unhx(a["raw"])
+    if a.get("mut") and len(raw) >= 6:
+        _redecode_probe(raw, a["mut"])
     h = SpacePacketHeader.unpack(raw)
     # headers decoded by earlier calls must still show what they showed then
     f = _ISO_SWEEP.check("SpacePacketHeader", h, _fields)
@@ -219,6 +271,19 @@ class C01(Prop):
             yield Case({"op": "sph_unpack", "raw": hx(raw)}, "valid", tag="complement-pair")
             yield Case({"op": "sph_unpack", "raw": hx(bytes(x ^ 0xFF for x in raw) + rbytes(rng, 2))}, "valid", tag="complement-pair")
             yield Case({"op": "sph_pack", **rand_hdr(rng)}, "valid", tag="complement-pair")
+        # --- the application modifies a decoded header through its setters (each setter alone, all together, random
+        #     subsets), then decodes the same octets / octets sharing a word with them (key "mut", see _mutate) ---
+        masks = [1, 2, 4, 8, 16, 32, 64, _MUT_ALL]
+        for i in range(20000 if thorough else 2500):
+            m = masks[i % 8] if i % 2 == 0 else rng.randint(1, _MUT_ALL)
+            if i % 3 == 0:
+                raw = bytes(_hdr(rand_hdr(rng)).pack())
+            else:
+                raw = rbytes(rng, 6)
+            yield Case({"op": "sph_unpack", "raw": hx(raw + rbytes(rng, rng.choice([0, 0, 1, 4]))), "mut": m}, "valid",
+                       tag="setters-then-decode")
+            if i % 5 == 0:
+                yield Case({"op": "sph_pack", **rand_hdr(rng), "mut": m}, "valid", tag="setters-then-decode")
         # --- short input ---
         for ln in range(0, 6):
             for _ in range(20):
